@@ -192,6 +192,32 @@ class Lib:
             raise Unsupported('entry store of undeclared column %s' % field)
         run.set_heap(e.loc, m.with_col(field, z3.Store(m.cols[field], e.key, self.col_term(run, m.vkinds[field], v))), 'vals')
 
+    def entry_to_obj(self, run, e):
+        """deepcopy(map[key]) of an object-valued entry: a fresh object with the entry's field values; its generator
+        is a private copy holding the state the entry's generator has now (copy.deepcopy, A6)."""
+        from .libcalls import _rs
+        m = run.st.heap[e.loc]
+        fields = {}
+        decls = run.eng.class_decls(m.record_cls)
+        for c, arr in m.cols.items():
+            if c.startswith('#'):
+                continue
+            d = decls.get(c, '').replace(' const', '').strip()
+            t = arr[e.key]
+            if d in ('opt:scaler', 'scaler'):
+                if run.branch(T_isnone(t)):
+                    fields[c] = NONE
+                else:
+                    fields[c] = run.st.alloc(Obj('StandardScaler', {'state': OpaqueV(t, 'scaler')}))
+            else:
+                fields[c] = wrap(m.vkinds[c], t)
+        if '#rng_shared' in m.cols:
+            probe = run.st.alloc(Obj('np.Generator', {'slot': TupleV([Ref(e.loc), ArmV(e.key)])}))
+            state = _rs(run, probe)
+            gen = run.st.alloc(Obj('np.Generator', {'state': OpaqueV(state, 'rngstate')}))
+            fields['rng'] = run.st.alloc(Obj('_NumpyRNG', {'seed': Num(fresh('seed', Int)), 'rng': gen}))
+        return run.st.alloc(Obj(m.record_cls, fields))
+
     def store_rng_slot(self, run, loc, key, v):
         m = run.st.heap[loc]
         if not isinstance(v, Ref):
@@ -225,6 +251,8 @@ class Lib:
                 return OptArm.some(v.term)
             if isinstance(v, OptArmV):
                 return v.term
+        if vkind == 'opaque' and isinstance(v, Ref) and isinstance(run.deref(v), Obj) and 'state' in run.deref(v).fields:
+            return run.deref(v).fields['state'].term
         if vkind in ('mat', 'rseq', 'opaque', 'arm', 'aseq', 'iseq') and hasattr(v, 'term'):
             return v.term
         raise Unsupported('store %r into %s column' % (v, vkind))
@@ -695,6 +723,8 @@ def none_const(sort):
     k = str(sort)
     if k not in _none_consts:
         _none_consts[k] = z3.Const('none:' + k, sort)
+        if sort == Opaque:
+            axiom('none.opaque', T_isnone(_none_consts[k]), ['none:' + k], 'definitional')
     return _none_consts[k]
 
 
